@@ -30,6 +30,7 @@
 
 
 import functools
+import numbers
 import random
 from copy import deepcopy
 
@@ -853,6 +854,9 @@ class NAryMatrixRelation(AbstractBaseRelation, SimpleRepr):
         if isinstance(var_values, list):
             _, s = self._slice_matrix([v.name for v in self._variables], var_values)
             matrix = np.copy(self._m)
+            if matrix.dtype.kind in "iu" and not isinstance(rel_value, numbers.Integral):
+                # Do not silently truncate a non-integer value set on an integer table
+                matrix = matrix.astype(np.float64)
             matrix[s] = rel_value
             return NAryMatrixRelation(self._variables, matrix, name=self.name)
 
@@ -862,6 +866,9 @@ class NAryMatrixRelation(AbstractBaseRelation, SimpleRepr):
                 values.append(var_values[v.name])
             _, s = self._slice_matrix([v.name for v in self._variables], values)
             matrix = np.copy(self._m)
+            if matrix.dtype.kind in "iu" and not isinstance(rel_value, numbers.Integral):
+                # Do not silently truncate a non-integer value set on an integer table
+                matrix = matrix.astype(np.float64)
             matrix[s] = rel_value
             return NAryMatrixRelation(self._variables, matrix, name=self.name)
         raise ValueError("Could not set value, must be list or dict")
